@@ -341,6 +341,13 @@ def run_shard(shard):
                 acc.outcomes[(name.split("-")[0], runner, x.status, x.pruned)] += 1
             acc.key((name, runner, tuple(sorted(cfg.items()))))
             acc.counters[f"executions[{name},{runner},{'susp' if cfg['suspend'] else ''}{'inv' if cfg['invalid_menu'] else ''}]"] = n
+        if tier == "thorough":
+            # abstraction cross-check: the same program WITHOUT state pruning to a fixed depth, same monitor
+            # (guards the pruning key of DESIGN 3.3: anything it wrongly merges would show up here)
+            un = 0
+            for ch, x in explore_nd(p, inputs, runner, horizon=min(5, meta["horizon"]), acc=acc, case_key=name + "/unpruned", judge=_judge(p, inputs, meta), bound=0, max_execs=30000, prune=False, suspend=False, invalid_menu=False):
+                un += 1
+            acc.counters["unpruned_executions"] += un
     acc.sample({"program": name, "spec": prog, "meta": meta}, 1)
     return acc
 
